@@ -55,6 +55,8 @@ pub struct Case {
     /// values family: (max_field_section_size, max_webtransport_sessions, extra server shutdown(n)) - numbers at
     /// the varint form boundaries, which decide the length fields of SETTINGS and GOAWAY
     pub values: Option<(u64, u64, usize)>,
+    /// shutdown family: the server calls shutdown(n) for each n of this list, in order, after the first accept
+    pub shutdown_seq: Vec<usize>,
 }
 
 #[derive(Debug, Clone, Default, PartialEq, Eq)]
@@ -103,6 +105,7 @@ pub fn execute(case: &Case, seed: u64, write: Policy) -> Outcome {
             if let Some((_, _, n)) = case2.values {
                 shutdowns.insert(0, n);
             }
+            shutdowns.extend(case2.shutdown_seq.iter().copied());
             let mut first = true;
             loop {
                 match conn.accept().await {
@@ -386,7 +389,7 @@ fn programs(alphabet: &[Op], maxlen: usize) -> Vec<Vec<Op>> {
 }
 
 fn case_json(c: &Case, choices: &[u32], seed: u64, mode: &str) -> Value {
-    json!({"client": c.client_prog.iter().map(|o| format!("{o:?}")).collect::<Vec<_>>(), "server": c.server_prog.iter().map(|o| format!("{o:?}")).collect::<Vec<_>>(), "grease": c.grease, "extensions": c.extensions, "values": c.values.map(|(a, b, n)| json!([a.to_string(), b.to_string(), n.to_string()])), "choices": choices, "seed": seed, "mode": mode})
+    json!({"client": c.client_prog.iter().map(|o| format!("{o:?}")).collect::<Vec<_>>(), "server": c.server_prog.iter().map(|o| format!("{o:?}")).collect::<Vec<_>>(), "grease": c.grease, "extensions": c.extensions, "values": c.values.map(|(a, b, n)| json!([a.to_string(), b.to_string(), n.to_string()])), "shutdown_seq": c.shutdown_seq, "choices": choices, "seed": seed, "mode": mode})
 }
 
 fn op_from(s: &str) -> Op {
@@ -410,7 +413,7 @@ pub fn run(args: &Args) -> i32 {
     let mut rep = Report::new("C14", args.tier, args.seed, "model_checking");
     rep.exhaustive = true;
     rep.rule = format!(
-        "programs: every client call sequence of length <= {cl} over {{send_data(empty), send_data(1 byte), send_data(two-chunk Buf), send_trailers, finish, stop_stream}} after send_request (against a fixed server program), and every server call sequence of length <= {sl} over {{send_response, the three send_data, send_trailers, finish, stop_stream, shutdown(0), shutdown(1)}} (against a fixed client program); each call awaited; x (grease on/off) x (extensions configured on/off); plus a values family: max_field_section_size and max_webtransport_sessions from {{0, 63, 64, 16383, 16384, 2^30-1, 2^30, 2^62-1}} and a server shutdown(n) for n in {{0, 15, 16, 4095, 4096, 2^28-1, 2^28, 2^60-2, 2^60-1, 2^60, usize::MAX}} (every varint form boundary in SETTINGS values and GOAWAY identifiers, and the counts at which the identifier saturates). Each program under the default transport, the uniform one-byte-per-write schedule, and (programs of length <= 3) every write-acceptance pattern with <= {bound} deviations, a deviation being one poll_ready/poll_send answer that accepts 0, 1, 2, header-boundary-1, header-boundary, header-boundary+1 or n-1 bytes and then returns Pending. Oracle: refimpl parses the complete byte log of every stream both endpoints wrote (stream types, SETTINGS first and only allowed control frames, complete frames whose length equals the bytes that follow, grease form of reserved ids, no HTTP/2 type or setting, GOAWAY identifiers never increasing, HEADERS payloads decodable, DATA payload = the program's bytes). states = distinct transport fingerprints; non-trivial = executions with a partial write."
+        "programs: every client call sequence of length <= {cl} over {{send_data(empty), send_data(1 byte), send_data(two-chunk Buf), send_trailers, finish, stop_stream}} after send_request (against a fixed server program), and every server call sequence of length <= {sl} over {{send_response, the three send_data, send_trailers, finish, stop_stream, shutdown(0), shutdown(1)}} (against a fixed client program); each call awaited; x (grease on/off) x (extensions configured on/off); plus a values family: max_field_section_size and max_webtransport_sessions from {{0, 63, 64, 16383, 16384, 2^30-1, 2^30, 2^62-1}} and a server shutdown(n) for n in {{0, 15, 16, 4095, 4096, 2^28-1, 2^28, 2^60-2, 2^60-1, 2^60, usize::MAX}} (every varint form boundary in SETTINGS values and GOAWAY identifiers, and the counts at which the identifier saturates); plus a shutdown family: every sequence of 2..3 (thorough 4) server shutdown(n) calls over n in {{0, 1, 2, 5}}. Each program under the default transport, the uniform one-byte-per-write schedule, and (programs of length <= 3) every write-acceptance pattern with <= {bound} deviations, a deviation being one poll_ready/poll_send answer that accepts 0, 1, 2, header-boundary-1, header-boundary, header-boundary+1 or n-1 bytes and then returns Pending. Oracle: refimpl parses the complete byte log of every stream both endpoints wrote (stream types, SETTINGS first and only allowed control frames, complete frames whose length equals the bytes that follow, grease form of reserved ids, no HTTP/2 type or setting, GOAWAY identifiers never increasing, HEADERS payloads decodable, DATA payload = the program's bytes). states = distinct transport fingerprints; non-trivial = executions with a partial write."
     );
     rep.assumptions = vec!["cancelling a pending write future is outside the documented pattern (DESIGN.md 6)".into(), "the order of HEADERS/DATA on a request stream is the application's responsibility and not judged here".into()];
     rep.bound_note = format!("client programs <= {cl} calls, server programs <= {sl} calls, deviation bound {bound}");
@@ -420,10 +423,10 @@ pub fn run(args: &Args) -> i32 {
     for grease in [true, false] {
         for extensions in [false, true] {
             for p in programs(&calpha, cl) {
-                cases.push(Case { client_prog: p, server_prog: vec![Op::Response, Op::Data1, Op::Finish], grease, extensions, values: None });
+                cases.push(Case { client_prog: p, server_prog: vec![Op::Response, Op::Data1, Op::Finish], grease, extensions, values: None, shutdown_seq: vec![] });
             }
             for p in programs(&salpha, sl) {
-                cases.push(Case { client_prog: vec![Op::Data1, Op::Finish], server_prog: p, grease, extensions, values: None });
+                cases.push(Case { client_prog: vec![Op::Data1, Op::Finish], server_prog: p, grease, extensions, values: None, shutdown_seq: vec![] });
             }
         }
     }
@@ -438,10 +441,31 @@ pub fn run(args: &Args) -> i32 {
             }
             for grease in [false, true] {
                 let w = bvals[(i + j) % bvals.len()];
-                cases.push(Case { client_prog: vec![Op::Data1, Op::Finish], server_prog: vec![Op::Response, Op::Data1, Op::Finish], grease, extensions: false, values: Some((v, w, n)) });
+                cases.push(Case { client_prog: vec![Op::Data1, Op::Finish], server_prog: vec![Op::Response, Op::Data1, Op::Finish], grease, extensions: false, values: Some((v, w, n)), shutdown_seq: vec![] });
                 n_values += 1;
             }
         }
+    }
+    // shutdown family: every sequence of <= 3 (thorough 4) shutdown(n) calls over n in {0, 1, 2, 5}: whatever the order,
+    // the GOAWAY identifiers written must never increase
+    let mut seqs: Vec<Vec<usize>> = vec![vec![]];
+    let mut frontier: Vec<Vec<usize>> = vec![vec![]];
+    for _ in 0..if thorough { 4 } else { 3 } {
+        let mut next = Vec::new();
+        for p in &frontier {
+            for n in [0usize, 1, 2, 5] {
+                let mut q = p.clone();
+                q.push(n);
+                next.push(q);
+            }
+        }
+        seqs.extend(next.iter().cloned());
+        frontier = next;
+    }
+    let mut n_seqs = 0;
+    for sq in seqs.into_iter().filter(|s| s.len() >= 2) {
+        cases.push(Case { client_prog: vec![Op::Data1, Op::Finish], server_prog: vec![Op::Response, Op::Data1, Op::Finish], grease: false, extensions: false, values: None, shutdown_seq: sq });
+        n_seqs += 1;
     }
     let seed = args.seed;
     let deadline = std::time::Instant::now() + std::time::Duration::from_secs(if thorough { 1500 } else { 55 });
@@ -495,6 +519,7 @@ pub fn run(args: &Args) -> i32 {
     }
     total.count("programs", cases.len() as u64);
     total.count("value_boundary_cases", n_values as u64);
+    total.count("shutdown_sequences", n_seqs as u64);
     for i in [cases.len() / 9, cases.len() / 2, cases.len() - 1] {
         total.samples.push(json!(format!("client {:?} / server {:?} grease={} extensions={}", cases[i].client_prog, cases[i].server_prog, cases[i].grease, cases[i].extensions)));
     }
@@ -507,6 +532,7 @@ pub fn replay(r: &Value) -> i32 {
         server_prog: r["server"].as_array().unwrap().iter().map(|s| op_from(s.as_str().unwrap())).collect(),
         grease: r["grease"].as_bool().unwrap(),
         extensions: r["extensions"].as_bool().unwrap(),
+        shutdown_seq: r["shutdown_seq"].as_array().map(|a| a.iter().map(|v| v.as_u64().unwrap() as usize).collect()).unwrap_or_default(),
         values: r["values"].as_array().map(|a| (a[0].as_str().unwrap().parse().unwrap(), a[1].as_str().unwrap().parse().unwrap(), a[2].as_str().unwrap().parse().unwrap())),
     };
     let seed = r["seed"].as_u64().unwrap_or(0);
